@@ -92,7 +92,7 @@ def build_impl():
 
 def run_extract():
     """Regenerate lean/DeltaModel/Generated/*.lean from REPO. Returns (ok, log, hashes)."""
-    with Lock("lake"):
+    with Lock("extract"):
         p = subprocess.run([sys.executable, os.path.join(ROOT, "tools", "extract.py"), REPO,
                             os.path.join(LEAN, "DeltaModel", "Generated")],
                            stdout=subprocess.PIPE, stderr=subprocess.STDOUT, text=True)
@@ -106,9 +106,8 @@ def run_extract():
 
 
 def lake_build(targets):
-    with Lock("lake"):
-        p = subprocess.run(["lake", "build"] + list(targets), cwd=LEAN,
-                           stdout=subprocess.PIPE, stderr=subprocess.STDOUT, text=True)
+    p = subprocess.run(["lake", "build"] + list(targets), cwd=LEAN,
+                       stdout=subprocess.PIPE, stderr=subprocess.STDOUT, text=True)
     return p.returncode == 0, p.stdout
 
 
@@ -140,9 +139,8 @@ def axiom_audit(prop):
     body = f"import Props.{prop}\n" + "".join(f"#print axioms {n}\n" for n in names)
     with open(path, "w") as f:
         f.write(body)
-    with Lock("lake"):
-        p = subprocess.run(["lake", "env", "lean", path], cwd=LEAN, stdout=subprocess.PIPE,
-                           stderr=subprocess.STDOUT, text=True)
+    p = subprocess.run(["lake", "env", "lean", path], cwd=LEAN, stdout=subprocess.PIPE,
+                       stderr=subprocess.STDOUT, text=True)
     out = p.stdout
     res = {}
     for m in re.finditer(r"'([^']+)' depends on axioms: \[([^\]]*)\]", out, flags=re.S):
@@ -229,10 +227,16 @@ def parallel_map(fn, items, workers=None):
 
 
 def load_known():
-    p = os.path.join(ROOT, "known_findings.json")
-    if not os.path.exists(p):
-        return []
-    return json.load(open(p)).get("findings", [])
+    """Known findings: /verif/known_findings/<Cxx>.json, {"findings": [{property, id, signature
+    (regex matched against the violation signature), what}], "fixed": ["fixed: property=... <commit> <what>"]}.
+    Read only; never written at run time."""
+    d = os.path.join(ROOT, "known_findings")
+    out = []
+    if os.path.isdir(d):
+        for f in sorted(os.listdir(d)):
+            if f.endswith(".json"):
+                out.extend(json.load(open(os.path.join(d, f))).get("findings", []))
+    return out
 
 
 class Report:
@@ -460,9 +464,8 @@ def main(argv):
         rep.broken_proofs.append(f"lake build Props.{prop} failed at " + (", ".join(bad[:8]) or "?"))
     ctx.lean_ok = ok
     if a.tier == "thorough" and ok:
-        with Lock("lake"):
-            p = subprocess.run(["lake", "env", "leanchecker", f"Props.{prop}"], cwd=LEAN,
-                               stdout=subprocess.PIPE, stderr=subprocess.STDOUT, text=True)
+        p = subprocess.run(["lake", "env", "leanchecker", f"Props.{prop}"], cwd=LEAN,
+                           stdout=subprocess.PIPE, stderr=subprocess.STDOUT, text=True)
         rep.notes["leanchecker"] = dict(rc=p.returncode, out=p.stdout[-500:])
         if p.returncode != 0:
             rep.broken_proofs.append("leanchecker rejected Props." + prop)
